@@ -674,7 +674,13 @@ func (p *Primary) getWALEntriesFromSequence(fromSequence uint64) ([]*wal.Entry, 
 	// Limit the number of entries to return to avoid overwhelming the network
 	maxEntriesToReturn := 100
 	if len(allEntries) > maxEntriesToReturn {
-		allEntries = allEntries[:maxEntriesToReturn]
+		// Never cut a batch: the entries of one WAL batch (a transaction) share a
+		// sequence number and the replica moves on to the next number after a message
+		end := maxEntriesToReturn
+		for end < len(allEntries) && allEntries[end].SequenceNumber == allEntries[end-1].SequenceNumber {
+			end++
+		}
+		allEntries = allEntries[:end]
 		log.Info("Limited entries to %d for network efficiency", maxEntriesToReturn)
 	}
 
